@@ -160,9 +160,10 @@ def _get_paired_crop(
     """
     assert prediction_arr.shape == reference_arr.shape
 
-    combined = prediction_arr + reference_arr
+    # foreground of either array (adding label values could cancel to zero in narrow dtypes)
+    combined = np.logical_or(prediction_arr, reference_arr)
     if combined.sum() == 0:
-        combined += 1
+        combined = np.ones_like(combined)
     return _get_bbox_nd(combined, px_dist=px_pad)
 
 
